@@ -249,9 +249,20 @@ func c17ListTokens(v string) string {
 }
 
 type c17Judge struct {
-	run  *vfRun
-	w    *vfWorld
-	sent *sync.Map
+	run      *vfRun
+	w        *vfWorld
+	sent     *sync.Map
+	mu       sync.Mutex
+	reported map[string]int
+}
+
+func (j *c17Judge) isKnown(sig string) bool {
+	for _, k := range j.run.known {
+		if k.Property == j.run.ID && k.Status == "known" && k.Signature == sig {
+			return true
+		}
+	}
+	return false
 }
 
 func (j *c17Judge) collectHits(id string) (map[string][]vfUpHit, int) {
@@ -708,6 +719,18 @@ func (j *c17Judge) judge(s *c17Set, c *c17Case) {
 			continue
 		}
 		seen[f.Sig] = true
+		run.Count("observed_"+f.Sig, 1)
+		if !j.isKnown(f.Sig) {
+			// at most three witnesses per signature, so that a frequent class cannot use up the rig's witness budget and
+			// hide a different class that shows up in a later set (totals are in the observed_* counters)
+			j.mu.Lock()
+			j.reported[f.Sig]++
+			over := j.reported[f.Sig] > 3
+			j.mu.Unlock()
+			if over {
+				continue
+			}
+		}
 		run.Violation(f.Sig, fmt.Sprintf("[set %s] %s %s: %s", s.Name, c.Method, vfTrunc(c.Target(), 120), vfTrunc(f.Msg, 700)), j.witness(s, c, req, &bestD, resp, hits))
 	}
 	run.SampleEvery(1499, func() interface{} {
@@ -767,7 +790,7 @@ func TestVerif_C17(t *testing.T) {
 		name := fmt.Sprintf("u%d", k)
 		w.Upstream(name).SetRespond(c17Responder(name, sent))
 	}
-	j := &c17Judge{run: run, w: w, sent: sent}
+	j := &c17Judge{run: run, w: w, sent: sent, reported: map[string]int{}}
 	sets := c17Sets(w)
 
 	if rp := run.Env.Replay; rp != "" {
